@@ -25,6 +25,12 @@ class MyBytes(bytes):
     pass
 
 
+class LoudStr(str):
+    """A str subclass that prints differently from the text it holds (as members of (str, Enum) classes do since Python 3.11)."""
+    def __str__(self) -> str:
+        return '<' + str.__str__(self) + '>'
+
+
 class NotAWorkday(Exception):
     pass
 
